@@ -63,7 +63,12 @@ def h_curve_grid(cx, p, kv, dim, rational, ss, start=None, stop=None):
         a, b = kv[p], kv[n]
     else:
         # a segment [start, stop] of the domain; start > stop sweeps it backwards
-        c.evaluate(start=cx.const(start), stop=cx.const(stop))
+        try:
+            c.evaluate(start=cx.const(start), stop=cx.const(stop))
+        except (ValueError, geo.M('exceptions').GeomdlException):
+            if start > stop:
+                return          # a backwards segment may be refused; if it is accepted it must be the definition's
+            raise
         a, b = start, stop
     pts = c.evalpts
     cx.check('grid_len', len(pts) == ss, 'len(evalpts)=%d, sample_size=%d' % (len(pts), ss))
@@ -128,7 +133,12 @@ def h_surface_grid(cx, pu, pv, kvu, kvv, dim, rational, ssu, ssv, rng=None):
         au, bu, av, bv = kvu[pu], kvu[su], kvv[pv], kvv[sv]
     else:
         au, bu, av, bv = rng          # a sub-rectangle; start > stop sweeps a direction backwards
-        s.evaluate(start_u=cx.const(au), stop_u=cx.const(bu), start_v=cx.const(av), stop_v=cx.const(bv))
+        try:
+            s.evaluate(start_u=cx.const(au), stop_u=cx.const(bu), start_v=cx.const(av), stop_v=cx.const(bv))
+        except (ValueError, geo.M('exceptions').GeomdlException):
+            if au > bu or av > bv:
+                return
+            raise
     pts = s.evalpts
     cx.check('grid_len', len(pts) == ssu * ssv, 'len(evalpts)=%d' % len(pts))
     for i in range(ssu):
